@@ -128,6 +128,21 @@ func wireElem(w *spec.WCase, e *spec.WElem) string {
 // WireFileSource renders one wire file.
 func WireFileSource(w *spec.WCase, f *spec.WFile) string {
 	c := w.Spec
+	// per-file import style: some external packages are imported without alias in this file
+	saved := map[int]string{}
+	for _, key := range f.ExtPlain {
+		for i := range c.Exts {
+			if c.Exts[i].Key == key {
+				saved[i] = c.Exts[i].Alias
+				c.Exts[i].Alias = ""
+			}
+		}
+	}
+	defer func() {
+		for i, a := range saved {
+			c.Exts[i].Alias = a
+		}
+	}()
 	var body strings.Builder
 	for i := range f.Sets {
 		s := &f.Sets[i]
@@ -162,6 +177,17 @@ func WireFileSource(w *spec.WCase, f *spec.WFile) string {
 	src = strings.Replace(src, "import (\n", "import (\n\t\"github.com/google/wire\"\n", 1)
 	if !strings.Contains(src, "import (") {
 		src = strings.Replace(src, "package "+UserPkg+"\n\n", "package "+UserPkg+"\n\nimport \"github.com/google/wire\"\n\n", 1)
+	}
+	// with per-file plain imports two packages may have the same local name: only the plain one
+	// is meant in this file
+	for _, key := range f.ExtPlain {
+		pe := c.Ext(key)
+		for i := range c.Exts {
+			o := &c.Exts[i]
+			if o.Key != key && o.Alias == "" && o.Name == pe.Name {
+				src = strings.Replace(src, "\t\""+Module+"/"+o.Path+"\"\n", "", 1)
+			}
+		}
 	}
 	if f.Tag {
 		src = "//go:build wireinject\n\n" + src
